@@ -45,6 +45,9 @@ class Check(PropertyCheck):
         import bz2
         cs.append(("magic+valid", bz2.compress(b"hello world\n" * 50, 1)))
         cs.append(("magic+valid", bz2.compress(L.noise(r, 70000), 9)))
+        # a near-miss prefix followed by noise can be a genuine header by chance ("BZh" + a noise byte '1'..'9'): label by content
+        cs = [(("magic+garbage" if (len(d) >= 4 and d[:3] == b"BZh" and 0x31 <= d[3] <= 0x39 and not k.startswith("magic")) else k), d)
+              for k, d in cs]
         return cs
 
     def frag_plans(self, n):
